@@ -380,6 +380,60 @@ def scenario(exe, root, seed, stats):
 def mk(p):
     os.makedirs(p, exist_ok=True); return p
 
+def pending_import(exe, root, seed, stats):
+    """imported / duplicate data offered for a block that is still PENDING: F synced and a copy of it kept (import directory,
+    or a duplicate in the array carrying the new file`s size and stamp), F replaced on its parity positions by a decoy G of the
+    same size, the sync left incomplete (range not reaching it, or killed after the content save), G lost.  The hash a
+    pending block carries is the hash of what it REPLACES (F), not its own: offered data that matches it is F`s data and
+    must never be written under G`s name as recovered"""
+    rng = e2e.Rng(seed)
+    a = e2e.Arr(root, exe, ndisks=2 + rng.below(2), nparity=2, ncontent=1, hashsize=rng.choice([16, 8]))
+    s = sim.Sim(a, rng.fork(), weird_names=False)
+    bs = a.block
+    lead = 1 + rng.below(2)
+    for d in a.disks:
+        a.write(d, 'A', rng.bytes(bs * lead), s.tick())
+    nb = 2 + rng.below(4)
+    size = nb * bs - rng.below(2) * (1 + rng.below(100))
+    Fb, Gb = rng.bytes(size), rng.bytes(size)
+    a.write('d1', 'F', Fb, s.tick())
+    if s.sync().rc != 0:
+        a.destroy(); return None
+    imp = os.path.join(a.root, 'imp'); os.makedirs(imp, exist_ok=True)
+    via = rng.choice(['import', 'duplicate'])
+    os.unlink(a.path('d1', 'F')); s.log('d1/F removed')
+    tg = s.tick()
+    a.write('d1', 'G', Gb, tg); s.log('d1/G created (same size, other bytes)')
+    if via == 'import':
+        with open(os.path.join(imp, 'F.copy'), 'wb') as f: f.write(Fb)
+    else:
+        a.write('d2', 'keep/G', Fb, tg); s.log('d2/keep/G: F`s bytes under G`s name, size and time-stamp')
+    how = rng.choice(['range', 'kill'])
+    if how == 'range': s.run('sync', '-B', str(lead))
+    else: s.run('sync', '--test-kill-after-sync')
+    if not os.path.exists(a.contents[0]):
+        a.destroy(); return None
+    dec = fx.decode(a)
+    rec = [f for f in dec.files if f['sub'] == b'G' and dec.maps[f['mapping']][0] == b'd1'] if dec.ok else []
+    if not rec:
+        a.destroy(); return None
+    kinds = ''.join(sorted(set(b[1] for b in rec[0]['blocks'])))
+    stats['pending_import'] = stats.get('pending_import', 0) + 1
+    os.unlink(a.path('d1', 'G')); s.log('d1/G lost')
+    r = a.cmd('fix', *(['-i', imp] if via == 'import' else []))
+    p = a.path('d1', 'G')
+    got = open(p, 'rb').read() if os.path.isfile(p) else None
+    rec_tag = any(t.startswith('status:recovered:d1:G') for t in r.tags)
+    cfg = 'pending-import ndisks=%d hashsize=%d blocks=%d via=%s sync=%s states=%s seed=%d' % (a.ndisks, a.hashsize, nb, via, how, kinds, seed)
+    hist = '\n'.join(s.history)
+    a.destroy()
+    if got is not None and got != Gb:
+        return [('(%s) [pending-import] fix leaves d1/G with %s, exit %d, reported recovered=%s' % (cfg, 'the bytes of F (the file it replaced)' if got == Fb else 'other bytes', r.rc, rec_tag),
+                 hist + '\n' + '\n'.join(t for t in r.tags if t.split(':')[0] in ('entry', 'hash_import', 'hash_unknown', 'fixed', 'status', 'summary', 'unrecoverable'))[:3000])]
+    if got is None and r.rc == 0:
+        return [('(%s) [pending-import] d1/G not restored but fix exits 0' % cfg, hist)]
+    return None
+
 def main(tier, seed):
     chk = vlib.Check('C19', 'proof', tier, seed)
     chk.assumptions = ['hash functions are abstract in the theorems (any function D -> H); "other data" is detected up to hash collisions (fetch_is_recorded states the separation hypothesis explicitly)',
@@ -403,7 +457,7 @@ def main(tier, seed):
     def job(i):
         return scenario(exe, os.path.join(vlib.scratch(), 'sh%d' % i), seed * 100000 + 96000 + i, stats)
     with ThreadPoolExecutor(vlib.NCPU) as ex:
-        res = list(ex.map(job, range(n)))
+        res = list(ex.map(job, range(n))) + list(ex.map(lambda i: pending_import(exe, os.path.join(vlib.scratch(), 'pi%d' % i), seed * 100000 + 97000 + i, stats), range(24 if tier == 'quick' else 240)))
     k = 0
     seen = set()
     for r in res:
@@ -420,7 +474,7 @@ def main(tier, seed):
     chk.evaluations = stats['stripes'] + stats['fixes']
     chk.distinct = chk.evaluations
     chk.extra['explanation'] = 'theorems over abstract data/hash types for every stripe and candidate list; the executable model (shortcut-sync) is compared stripe by stripe with what sync records, the fetch model with what fix restores'
-    chk.rule = ('%d arrays (1-3 disks, 1-2 parities, hash size 16/8, zero and non-zero sub-second stamps, optionally sources left pending by an interrupted sync) x 3 rounds: files planted with the name/size/stamp of recorded files (decoy or true copy; other disk same path / other dir, same disk; source kept or deleted; plus ordinary new files) then sync or sync -h: per-stripe completed/stopped = Lean model, exit status, parity untouched after a pre-hash mismatch, no block recorded as synced fails the hash audit, C06 parity oracle, second sync refuses again, --force-nocopy proceeds and checks; or a recorded file lost (parity removed 2/3) with decoys/true copies offered through -i and on the disks: restored bytes are the recorded ones or fix fails, restorable = Lean fetch verdict, nothing else modified' % n)
+    chk.rule = ('%d arrays (1-3 disks, 1-2 parities, hash size 16/8, zero and non-zero sub-second stamps, optionally sources left pending by an interrupted sync) x 3 rounds: files planted with the name/size/stamp of recorded files (decoy or true copy; other disk same path / other dir, same disk; source kept or deleted; plus ordinary new files) then sync or sync -h: per-stripe completed/stopped = Lean model, exit status, parity untouched after a pre-hash mismatch, no block recorded as synced fails the hash audit, C06 parity oracle, second sync refuses again, --force-nocopy proceeds and checks; or a recorded file lost (parity removed 2/3) with decoys/true copies offered through -i and on the disks: restored bytes are the recorded ones or fix fails, restorable = Lean fetch verdict, nothing else modified; plus pending-import histories (data matching the hash a PENDING block carries - the hash of what it replaces - offered through -i or as a duplicate)' % n)
     chk.samples = [dict((k2, v) for k2, v in stats.items())]
     chk.corr['E2E-DECOY'] = dict(stats)
     chk.finish()
